@@ -37,10 +37,10 @@ Module containing Fortran2008 Submodule_Stmt rule R1117
 """
 
 from fparser.two.Fortran2008.parent_identifier_r1118 import Parent_Identifier
-from fparser.two.utils import Base, ScopingRegionMixin
+from fparser.two.utils import StmtBase, ScopingRegionMixin
 
 
-class Submodule_Stmt(Base, ScopingRegionMixin):  # R1117
+class Submodule_Stmt(StmtBase, ScopingRegionMixin):  # R1117
     """
     Fortran 2008 rule R1117::
 
